@@ -81,6 +81,32 @@ def gen_case(streams, tier):
     w, s = streams["workload"], streams["rngseam"]
     if w.random() < 0.02:
         return {"kind": "clifford_table"}
+    if w.random() < 0.06:
+        # the offline tracker: a Clifford(+Pauli, +one leading RZ per wire) tape in the standard circuit
+        # formalism, a forced history of the pattern's mid-circuit outcomes (4 per single-qubit gate, 13 per
+        # CNOT) and raw terminal samples; the wires are first used in any order
+        n = w.choice([1, 2, 2, 3, 3])
+        ops, used = [], set()
+        for _ in range(w.randint(1, 6)):
+            r = w.random()
+            q = w.randrange(n)
+            if r < 0.12 and q not in used:
+                ops.append(["RZ", [q], [qgen.rand_angle(w)]])
+            elif r < 0.35:
+                ops.append(["Hadamard", [q], []])
+            elif r < 0.55:
+                ops.append(["S", [q], []])
+            elif r < 0.70:
+                ops.append([w.choice(["PauliX", "PauliY", "PauliZ"]), [q], []])
+            elif n > 1:
+                ops.append(["CNOT", w.sample(range(n), 2), []])
+            else:
+                ops.append(["Hadamard", [q], []])
+            used.update(ops[-1][1])
+        n_mid = sum(0 if o[0].startswith("Pauli") else (13 if o[0] == "CNOT" else 4) for o in ops)
+        measured = w.sample(sorted(used), w.randint(1, len(used)))
+        return {"kind": "offline_tracker", "n": n, "ops": ops, "measured": measured,
+                "mid": [s.getrandbits(1) for _ in range(n_mid)], "raw": [s.getrandbits(1) for _ in measured]}
     n = w.choice([1, 1, 2, 2, 2])
     ops = []
     for _ in range(w.randint(1, 4)):
@@ -157,6 +183,59 @@ def run_case(case):
             viol("clifford_commutation_wrong", {"op": b["op"]}, b)
         return {"violations": violations, "digest": "clifford_table", "nontrivial": True, "counters": counters,
                 "sim_time": 0.0, "case": case, "summary": {"frames": n_checked}}
+
+    if case["kind"] == "offline_tracker":
+        from checks import qgen as _qg
+        from pennylane.ftqc.decomposition import _cnot_xz_corrections, _single_xz_corrections
+        from pennylane.ftqc.pauli_tracker import get_byproduct_corrections
+
+        ops_ = _qg.build_ops(case["ops"])
+        tape_ = qp.tape.QuantumScript(ops_, [qp.sample(wires=case["measured"])], shots=1)
+        counters["offline_tracker_histories"] = 1
+        counters["offline_tracker_first_use_not_ascending"] = int(list(tape_.wires) != sorted(tape_.wires))
+        # reference frame propagation, written from C P C^dagger = P' for H, S and CNOT (symplectic form)
+        fx, fz = {q: 0 for q in range(case["n"])}, {q: 0 for q in range(case["n"])}
+        pos = 0
+        for spec, op in zip(case["ops"], ops_):
+            nm, ws = spec[0], spec[1]
+            if nm.startswith("Pauli"):
+                px, pz = {"PauliX": (1, 0), "PauliY": (1, 1), "PauliZ": (0, 1)}[nm]
+                fx[ws[0]] ^= px
+                fz[ws[0]] ^= pz
+                continue
+            width = 13 if nm == "CNOT" else 4
+            ms = case["mid"][pos:pos + width]
+            pos += width
+            if nm == "CNOT":
+                c, t = ws
+                fx[t] ^= fx[c]
+                fz[c] ^= fz[t]
+                (bxc, bzc), (bxt, bzt) = _cnot_xz_corrections(ms)
+                fx[c] ^= int(bxc); fz[c] ^= int(bzc); fx[t] ^= int(bxt); fz[t] ^= int(bzt)
+            else:
+                q = ws[0]
+                if nm == "Hadamard":
+                    fx[q], fz[q] = fz[q], fx[q]
+                elif nm == "S":
+                    fz[q] ^= fx[q]
+                else:  # RZ, first gate on its wire: the frame there is still trivial
+                    fx[q], fz[q] = 0, 0
+                bx, bz = _single_xz_corrections(op, *ms)
+                fx[q] ^= int(bx)
+                fz[q] ^= int(bz)
+        expected = [int(r) ^ fx[q] for r, q in zip(case["raw"], case["measured"])]
+        try:
+            got = [int(v) for v in np.asarray(get_byproduct_corrections(tape_, list(case["mid"]), list(case["raw"]))).reshape(-1)]
+        except Exception as e:  # noqa: BLE001
+            viol("unexpected_exception", {"where": "offline_tracker", "exc": type(e).__name__}, {"error": repr(e)[:300]})
+            got = None
+        if got is not None and got != expected:
+            viol("offline_tracker_correction_wrong", {"first_use_ascending": list(tape_.wires) == sorted(tape_.wires)},
+                 {"ops": case["ops"], "measured": case["measured"], "expected": expected, "observed": got,
+                  "final_x_frame": [fx[q] for q in range(case["n"])]})
+        hs = hashlib.sha256(json.dumps([case["ops"], case["mid"], case["raw"], case["measured"]]).encode())
+        return {"violations": violations, "digest": hs.hexdigest()[:24], "nontrivial": any(case["mid"]),
+                "counters": counters, "sim_time": 0.0, "case": case, "summary": {"ops": case["ops"]}}
 
     n = case["n"]
     from checks import qgen
